@@ -100,12 +100,26 @@ class _PipeLike(io.RawIOBase):
         return len(chunk)
 
 
-def in_stream(data):
+class _BlockAtATime(object):
+    """a source that hands over at most one 1014-byte block per read() call, however much is asked for (a transport that
+    delivers the file block by block): the unblocker asks for one block at a time, so this is all it needs"""
+    def __init__(self, data):
+        self._b = io.BytesIO(data)
+
+    def read(self, n=-1):
+        return self._b.read(1014 if n is None or n < 0 or n > 1014 else n)
+
+
+def in_stream(data, blocked=False):
     """the file object a reader is given: io.BytesIO for half of the inputs, a buffered forward-only stream for the other
-    half (chosen by the content, so a replay sees the same kind).  The properties speak of files and interrupted
-    transfers; nothing in them needs a seekable source."""
+    half (chosen by the content, so a replay sees the same kind) - and, for a reader of a BLOCKED file, a source that
+    delivers one block per read() for a fifth of them.  The properties speak of files and interrupted transfers; nothing
+    in them needs a seekable source."""
     import zlib
-    if zlib.crc32(bytes(data)) & 1:
+    h = zlib.crc32(bytes(data))
+    if blocked and h % 5 == 2:
+        return _BlockAtATime(bytes(data))
+    if h & 1:
         return io.BufferedReader(_PipeLike(bytes(data)))
     return io.BytesIO(data)
 
@@ -116,7 +130,7 @@ def read_all_impl(f, blocked):
     from util import exc_class
     recs = []
     try:
-        for r in mciipm.VbsReader(in_stream(f), blocked=blocked):
+        for r in mciipm.VbsReader(in_stream(f, blocked), blocked=blocked):
             recs.append(r)
     except Exception as ex:
         cls = exc_class(ex)
